@@ -58,6 +58,11 @@ func c08Rules(p *core.Prog, r *core.Run) {
 	pcfg := p.Func(Ech, "parseConfig")
 	c04ParserDiscipline(p, r, "C08.I2", []*ssa.Function{m.parseCH, m.parseExt, psh, m.process, pcfg}, map[string]bool{"ech.ErrDecodeError": true, "ech.ErrIllegalParameter": true})
 
+	// --- I7: the reconstructed hello cannot grow beyond the outer hello: each
+	// outer extension is referenced at most once (the Appendix B cursor only
+	// moves forward), so one record cannot be amplified into many
+	refCursor(p, r, m, "C08.I7")
+
 	// --- I3
 	depth := loopRules(p, r, "C08.I3", scope, func(fn *ssa.Function, lc loopClass) (string, string, bool) {
 		if fn != m.write {
